@@ -65,6 +65,7 @@ class URead(Family):
         sp.cell("S", "mid", F("mid", "x", "rd(x) * 2", "S.mid", "(x,)"), flags.get(("S", "mid"), True))
         sp.cell("S", "rd", F("rd", "x", "%s * 10 + x" % self.expr, "S.rd", "(x,)"), flags.get(("S", "rd"), True))
         sp.cell("S", "side", F("side", "x", "rd(x) + 100", "S.side", "(x,)"))
+        sp.cell("T", "ext", F("ext", "x", "_model.S.rd(x) + 5000", "T.ext", "(x,)"))      # cached caller in another space
         return sp
 
     def alphabet(self):
@@ -73,6 +74,7 @@ class URead(Family):
         MID2 = F("mid", "x", "rd(x) * 3", "S.mid", "(x,)")
         return [q("q-top", "S", "top", (1,)), q("q-side", "S", "side", (1,)), q("q-mid", "S", "mid", (1,), form="sub"),
                 q("q-reader", "S", "rd", (), {"x": 1}), q("q-top-other-arg", "S", "top", (2,)),
+                q("q-caller-in-other-space", "T", "ext", (1,)),
                 e_setref("set-ref-read", tp, tn, 6), e_setref("set-ref-unrelated", "S", "other", 2),
                 e_delref("del-ref-read", tp, tn),
                 e_formula("formula-reader", "S", "rd", [RD2]), e_formula("formula-mid", "S", "mid", [MID2]),
@@ -112,7 +114,7 @@ def run_once(fam, spec, alpha, hist, apply_flips, observe):
     st = new_state(fam, {}, spec)
     run = MxRun(spec)
     out = {"values": [], "ops": [], "skipped": False, "intrinsic": [], "build_error": run.build_error,
-           "uncached_ran": False, "state": st, "edits": []}
+           "uncached_ran": False, "state": st, "edits": [], "edit_results": []}
     try:
         if run.build_error:
             return out
@@ -135,9 +137,11 @@ def run_once(fam, spec, alpha, hist, apply_flips, observe):
                 if phase == "o" or True:
                     out["values"].append((step, optag, op, v))
             else:
-                run.edit(op)
+                r = run.edit(op)
                 apply_state(st, op)
                 out["edits"].append(optag)
+                if op[0] != "flag":
+                    out["edit_results"].append((optag, op, r))
             # uncached cells hold no values
             for c in all_cells(run.m):
                 try:
@@ -241,6 +245,19 @@ def run_item(item):
             res["fails"].append((tuple(tags + [kind]), what, script(spec, ops, tail)))
         if var["intrinsic"]:
             continue
+        # an edit is accepted under one assignment and refused under another
+        bad_edit = False
+        for (bt, bop, br), (vt, vop, vr) in zip(base["edit_results"], var["edit_results"]):
+            if isinstance(br, Raised) != isinstance(vr, Raised):
+                upto = var["ops"][:var["ops"].index(vop)]
+                res["fails"].append((tuple(tags + ["edit-raises-differently", "at:" + vt]),
+                                     "%s gives %r with %s, %r with every cells cached" % (line(vop), vr, ", ".join(unc0 + unc), br),
+                                     script(spec, upto, "try:\n    %s\n    ok = True\nexcept Exception:\n    ok = False\nif ok != %r:\n    sys.exit(1)"
+                                            % (line(vop), not isinstance(br, Raised)))))
+                bad_edit = True
+                break
+        if bad_edit:
+            continue
         # differential
         bv = [v for v in base["values"]]
         vv = [v for v in var["values"]]
@@ -288,6 +305,7 @@ def unhash_spec(kind, expr, caller_cached, mid_cached):
     sp = Spec()
     sp.ref("", "g", 7)
     sp.space("S"); sp.space("S.Ch"); sp.space("S.Ch.GC"); sp.space("T"); sp.space("Sub", bases=["S"])
+    sp.space("SubL", bases=["S"], late_bases=True)
     sp.space("P", params=("i",))
     sp.ref("S", "r", 5); sp.ref("S.Ch", "y", 2); sp.ref("S.Ch.GC", "z", 3); sp.ref("T", "z2", 4)
     sp.ref("P", "k", 3)
@@ -315,6 +333,8 @@ UNHASH_QUERIES = [
     ("mid-direct", Q("S", "mid", (7,))),
     ("derived-cells", Q("Sub", "u", ([1, 2],))),
     ("derived-caller", Q("Sub", "c", (3,))),
+    ("derived-cells-bases-added-late", Q("SubL", "u", ([1, 2],))),
+    ("derived-caller-bases-added-late", Q("SubL", "c", (3,))),
     ("itemspace-cells", Q("P[2]", "pu", ([1, 2],))),
     ("itemspace-caller", Q("P[2]", "pc", (3,))),
     ("repeat", Q("S", "u", ([1, 2],))),
@@ -343,7 +363,7 @@ def run_unhash(item):
             return res
         done = []
         for qt, op in qs:
-            exp = PureModel(spec).query(op)
+            exp = PureModel(spec, copy=False).query(op)
             v = run.query(op)
             done.append(op)
             res["counts"].append((("unhash", kind, caller_cached, mid_cached, order, qt), not isinstance(exp, Raised)))
@@ -421,7 +441,7 @@ def run(res, tier, seed):
                  "(quick: the first only) | all queries] + <= 2 edits (quick: pairs after the full warm-up only) from the family's alphabet (clears, reference changes / deletions / "
                  "shadowing, formula changes, deletions, flag flips, inputs of unflagged cells) + observation of every query; "
                  "thorough adds edit-query-edit histories and more sampled histories of 3-5 steps; family `unhash`: %d read kinds x "
-                 "cached/uncached caller x cached/uncached intermediate x %d query orders x 13 calls with list/dict arguments"
+                 "cached/uncached caller x cached/uncached intermediate x %d query orders x 15 calls with list/dict arguments"
                  ) % (len(FAMILIES), ", ".join(f.name for f in c08.FAMILIES), len(UNHASH_KINDS), 2 if tier == "quick" else 3)
     res.rule = ("exhaustive product family x history x flag assignment, then seeded random histories; evaluation = one (history, "
                 "assignment) pair compared query by query with the all-cached run of the same history; non-trivial when the "
@@ -441,8 +461,7 @@ def run(res, tier, seed):
             res.fail(tags, what, script=scr, case=item)
         if out["sample"] and n % 401 == 1:
             res.sample(out["sample"])
-    if n < n_exh:
-        res.exhaustive = False
+    res.exhaustive = n >= n_exh
     res.notes.append("%d histories enumerated (+%d sampled), %d dropped as not applicable" % (min(n, n_exh), max(0, n - n_exh), skipped))
 
 
